@@ -3,6 +3,7 @@
   Runs the *same* `def`s the theorems are about (compiled). Core-only imports, so it links.
 -/
 import Pulsar.Syntax
+import Pulsar.Typing
 import Pulsar.Timepb
 import Std.Data.HashMap
 open Pulsar Pulsar.Syntax
@@ -66,6 +67,13 @@ def step (st : St) (line : String) : St × String :=
   | "rdec" :: sid :: i :: flags :: hex :: rest =>
     (match st.get? sid, i.toNat?, bytesOfHex (hex.drop 1).toString with
      | some S, some i, some bs => (st, withVal rest (fun m0 => resVal S i (specUnmarshal S (parseFlags flags) i m0 bs)))
+     | _, _, _ => (st, "bad-op"))
+  | "rdecn" :: sid :: i :: flags :: hex :: rest =>
+    (match st.get? sid, i.toNat?, bytesOfHex (hex.drop 1).toString with
+     | some S, some i, some bs => (st, withVal rest (fun m0 =>
+         match specUnmarshal S (parseFlags flags) i m0 bs with
+         | .ok v => "ok " ++ printVal (repNorm S (v.depth + 1) i v)
+         | .err _ => "err" | .panic => "panic"))
      | _, _, _ => (st, "bad-op"))
   | ["sov", n] => (st, match n.toNat? with | some n => toString (sov n) | none => "bad-op")
   | ["soz", n] => (st, match n.toNat? with | some n => toString (soz n) | none => "bad-op")
